@@ -81,8 +81,6 @@ func (as *AppStats) DumpStats() *AppStats {
 }
 
 func resetUint64(ref *uint64) (val uint64) {
-	val = atomic.LoadUint64(ref)
 	verifhook.Yield("stats.reset.mid")
-	atomic.StoreUint64(ref, 0)
-	return
+	return atomic.SwapUint64(ref, 0)
 }
